@@ -131,6 +131,13 @@ func genC09World(r *lib.Rng) *c09World {
 	}
 	big = append(big, "}", "print(Big)")
 	w.files["big.lua"] = strings.Join(big, "\n") + "\n"
+	// warning-level diagnostics on (half of the worlds), and an enum block whose duplicate values are found
+	// by walking a map of locals: which pair is named, and where, must not depend on the iteration order
+	if r.Chance(1, 2) {
+		w.files["luahelper.json"] = "{\"ShowWarnFlag\":1}"
+	}
+	w.files["enum.lua"] = "---@enum start\nlocal RED = 1\nlocal GREEN = 2\nlocal BLUE = 1\nlocal PINK = 1\nlocal GREY = 2\n---@enum end\nprint(RED, GREEN, BLUE, PINK, GREY)\n" +
+		"---@enum start\nKIND = {\n  A = 1,\n  B = 2,\n  C = 1,\n  D = 2,\n  E = 1,\n}\n---@enum end\n"
 	return w
 }
 
@@ -264,7 +271,7 @@ func runC09(res *lib.Result, tier string, seed int64, args []string) error {
 	if tier == "thorough" {
 		nW, reps = 400, 8
 	}
-	res.Rule = "workspaces of 2-4 files defining 2-5 globals, each in one or two files (both at top level on different lines; on the same line number; nested in a do-block earlier vs top level later and the reverse), a user file calling every global, optionally an annotation class declared in two or three files, optionally two equally ranked module files, optionally four same-named modules in sibling directories required from inside one of them; each workspace is analysed 5 (thorough: 8) times with GOMAXPROCS in {1,2,16}, shuffled file creation order and the Go runtime's random map iteration; normalised diagnostics of every file, definition / hover / references of every global use, workspace and document symbols must be identical in all runs; for a global with a dominating definition (Lean: Merge.dominantOf, theorem dominant_wins_any_order) go-to-definition must lead to it in every run; non-trivial = the workspace has a global defined in two files; distinct by workspace"
+	res.Rule = "workspaces of 2-4 files defining 2-5 globals, each in one or two files (both at top level on different lines; on the same line number; nested in a do-block earlier vs top level later and the reverse), a user file calling every global, optionally an annotation class declared in two or three files, optionally two equally ranked module files, optionally four same-named modules in sibling directories required from inside one of them; each workspace is analysed 5 (thorough: 8) times with GOMAXPROCS in {1,2,16}, shuffled file creation order and the Go runtime's random map iteration; normalised diagnostics of every file, definition / hover / references of every global use, workspace and document symbols must be identical in all runs; for a global with a dominating definition (Lean: Merge.dominantOf, theorem dominant_wins_any_order) go-to-definition must lead to it in every run, for every multiply defined global it must lead to the winner of the visit in file-name order (Merge.winnerSorted, theorem sorted_visit_function_of_workspace); non-trivial = the workspace has a global defined in two files; distinct by workspace"
 	drv, err := lib.StartDriver()
 	if err != nil {
 		return err
@@ -282,6 +289,7 @@ func runC09(res *lib.Result, tier string, seed int64, args []string) error {
 		}
 		sort.Strings(names)
 		dominant := map[string]string{} // global → dominating file ("-" if none)
+		sortedWinner := map[string]string{}
 		multi := false
 		for g, ds := range w.defs {
 			var cs []string
@@ -298,6 +306,10 @@ func runC09(res *lib.Result, tier string, seed int64, args []string) error {
 			dominant[g] = "-"
 			if i := strings.Index(ans, " D="); i >= 0 {
 				dominant[g] = ans[i+3:]
+			}
+			// the winner of the sorted visit (Props/C09 sorted_visit_function_of_workspace): with or without a dominating definition
+			if i, j := strings.Index(ans, " S="), strings.Index(ans, " D="); i >= 0 && j > i && len(ds) > 1 {
+				sortedWinner[g] = ans[i+3 : j]
 			}
 		}
 		var worldText strings.Builder
@@ -338,6 +350,17 @@ func runC09(res *lib.Result, tier string, seed int64, args []string) error {
 					res.AddViolation("impl-vs-model", fmt.Sprintf("go-to-definition of %s leads to %s, the dominating definition is %s", g, obs["def:"+g], want), caseText, false)
 				}
 			}
+			for g, wfile := range sortedWinner {
+				var line int
+				for _, d := range w.defs[g] {
+					if d.file == wfile {
+						line = d.line
+					}
+				}
+				if want := fmt.Sprintf("%s:%d", wfile, line); obs["def:"+g] != want {
+					res.AddViolation("impl-vs-model", fmt.Sprintf("go-to-definition of %s leads to %s, the winner of the visit in file-name order is %s", g, obs["def:"+g], want), caseText, false)
+				}
+			}
 			if w.sibMod && obs["sibmember"] != "sc/util.lua" {
 				res.AddViolation("impl-vs-model", fmt.Sprintf("require(\"util\") from sc/main2.lua loads %s; the candidate in the same directory (sc/util.lua) has the strictly best score (C18 model)", obs["sibmember"]), caseText, false)
 			}
@@ -360,20 +383,7 @@ func runC09(res *lib.Result, tier string, seed int64, args []string) error {
 					continue
 				}
 				detail := fmt.Sprintf("%s differs between two runs on the same workspace:\n  run 0: %s\n  run %d: %s", k, first[k], rep, obs[k])
-				// which global / module is involved?
-				undominated := false
-				for g, dfile := range dominant {
-					if dfile == "-" && len(w.defs[g]) > 1 && (strings.Contains(k+" "+first[k]+obs[k], g) || strings.HasPrefix(k, "diag:")) {
-						undominated = true
-					}
-				}
-				switch {
-				case undominated:
-					res.HitKnown("C09-K1", "a global defined in two files such that neither definition dominates the other (same line number in both files, or a nested definition on an earlier line vs a top-level one on a later line): the definition the workspace links to depends on Go map iteration order; go-to-definition, hover, references and parameter-count warnings vary from run to run (theorems C09.order_dependent, same_line_order_dependent)", detail+"\n"+caseText)
-					res.Dist("hit.C09-K1")
-				default:
-					res.AddViolation("inconsistent-answers", detail, caseText, false)
-				}
+				res.AddViolation("inconsistent-answers", detail, caseText, false)
 			}
 		}
 		os.RemoveAll(dir)
